@@ -30,6 +30,12 @@ def gate_exprs():
     out += ["scalar(0.5j)", "scalar(-2)"]
     # phases that print like a grid phase (names keep 3 significant digits) but differ
     out += ["Rz(0.3004)", "Rx(0.2996)", "CRz(0.3004)", "CU1(0.2996)", "CRx(0.3004)", "Rz(1.2504)", "Rz(0.3)", "CRz(0.3)"]
+    # supported gates reached another way: daggers of self-adjoint gates, hand-built controlled gates,
+    # daggers of whole circuits, cups and caps of qubits
+    out += ["H.dagger()", "X.dagger()", "Z.dagger()", "CX.dagger()", "CZ.dagger()", "Controlled(X)", "Controlled(Z)",
+            "(H @ X >> CX).dagger()", "(Ket(0) @ H >> CX >> Rz(0.3) @ Id(1)).dagger()", "(CRz(0.3) >> CX).dagger()",
+            "Circuit.caps(qubit, qubit)", "Circuit.cups(qubit, qubit)", "Circuit.caps(qubit @ qubit, qubit @ qubit)",
+            "CX.transpose()", "(H >> Rx(0.3)).transpose()"]
     return out
 
 
@@ -43,11 +49,29 @@ def circuit_sig(quick):
     return sig
 
 
+def supported(c):
+    """Is every box of the circuit in the gate set circuit2zx documents (kets, bras, Rz, Rx, CRz,
+    CRx, CU1, pure scalars, swaps, and the gates named H, X, Y, Z, CX, CZ -- however the box was
+    built: CX.dagger(), Controlled(X) and H.dagger() are those gates)?"""
+    from discopy.quantum import gates, circuit
+    for b in c.boxes:
+        if isinstance(b, (gates.Ket, gates.Bra, gates.Rz, gates.Rx, gates.CRz, gates.CRx, gates.CU1, circuit.Swap)):
+            continue
+        if isinstance(b, gates.Scalar) and not b.is_mixed:
+            continue
+        if isinstance(b, gates.QuantumGate) and b._name in ("H", "X", "Y", "Z", "CX", "CZ") and \
+                (not b.is_dagger or b._name != "Y"):
+            continue
+        return False
+    return True
+
+
 def check_circuit(params):
     from discopy.quantum.zx import circuit2zx
     recipe = norm(params["recipe"]) if "recipe" in params else ("circuit", None, None)
     if "expr" in params:
-        c = build.kit("circuit").box(("e", params["expr"]))
+        from mc import zoo
+        c = zoo.value("circuit", params["expr"])
     elif "zoo" in params:
         from mc import zoo
         c = zoo.value("circuit", params["zoo"])
@@ -60,7 +84,7 @@ def check_circuit(params):
     try:
         z = circuit2zx(c)
     except (KeyError, NotImplementedError) as e:
-        if "zoo" in params:         # a gate outside the supported set: refused
+        if "zoo" in params and not supported(c):         # a gate outside the supported set: refused
             params["_refused"] = True
             return out
         bad("raises", "circuit2zx raised %s: %s" % (type(e).__name__, str(e)[:120]))
